@@ -123,6 +123,9 @@ pub fn run_c33(rep: &mut Report, progs: &[MProg]) {
                 }
             }
         }
+        for v in &st.violations {
+            println!("  violation-key: {}", v.key);
+        }
         let ev = st.evaluations;
         st.sample(|| json!({"program": p.name, "term": p.desc, "promise": format!("{:?}", mp.oblig), "executions_in_shard": ev}));
         st
